@@ -484,40 +484,67 @@ def rule_r3_r4(ctx):
     repo = ctx.repo
     cn = repo.func(f"{CL}:Cloner.clone_node")
     cfg = CFG(cn.node)
-    # appends of an original input (loop variable itself, not a mapped value) into new_inputs
-    loop = [n for n in own_nodes(cn.node) if isinstance(n, ast.For) and norm(n.iter) == "node.inputs"]
+    # pass-through points: where an original input (the loop variable itself, not its image in the value map) is put on its way
+    # into the new node's inputs - appended to a local list directly, or bound to a local that is appended later
+    loop = [n for n in own_nodes(cn.node) if isinstance(n, ast.For) and norm(n.iter) == f"{cn.params[1]}.inputs"]
     ctx.require(len(loop) == 1, "clone_node: input loop not found")
     var = norm(loop[0].target)
-    # appends of the loop variable itself (the original value, not its image in the value map) to a local list
-    apps = [c for c in ast.walk(loop[0]) if isinstance(c, ast.Call) and isinstance(c.func, ast.Attribute) and c.func.attr == "append"
-            and isinstance(c.func.value, ast.Name) and c.args and norm(c.args[0]) == var]
-    ctx.require(len(apps) >= 2, "clone_node: pass-through appends not found")
-    for c in apps:
-        conds = []
-        child = c
-        p = getattr(c, "_parent", None)
-        while p is not None and p is not loop[0]:
+    appended = {norm(c.args[0]) for c in ast.walk(loop[0]) if isinstance(c, ast.Call) and isinstance(c.func, ast.Attribute) and c.func.attr == "append"
+                and isinstance(c.func.value, ast.Name) and c.args and isinstance(c.args[0], ast.Name)}
+    points = [c for c in ast.walk(loop[0]) if isinstance(c, ast.Call) and isinstance(c.func, ast.Attribute) and c.func.attr == "append"
+              and isinstance(c.func.value, ast.Name) and c.args and norm(c.args[0]) == var]
+    points += [a for a in ast.walk(loop[0]) if isinstance(a, ast.Assign) and len(a.targets) == 1 and isinstance(a.targets[0], ast.Name)
+               and a.targets[0].id in appended and norm(a.value) == var]
+    ctx.require(len(points) >= 1, "clone_node: pass-through of original inputs not found")
+
+    def literals(node):
+        """Path condition of node inside the loop as (atom, polarity) pairs; `not A`, `A not in B`, `A is not B` are read as the
+        negation of `A`, `A in B`, `A is B`; an earlier sibling `if T: raise/continue/return` contributes the negation of T."""
+        out = []
+
+        def add(test, pol):
+            while isinstance(test, ast.UnaryOp) and isinstance(test.op, ast.Not):
+                test, pol = test.operand, not pol
+            if isinstance(test, ast.Compare) and len(test.ops) == 1 and isinstance(test.ops[0], (ast.NotIn, ast.IsNot)):
+                pos = ast.Compare(left=test.left, ops=[ast.In() if isinstance(test.ops[0], ast.NotIn) else ast.Is()], comparators=test.comparators)
+                out.append((norm(pos), not pol))
+            else:
+                out.append((norm(test), pol))
+
+        child, p = node, getattr(node, "_parent", None)
+        while p is not None and child is not loop[0]:
             if isinstance(p, ast.If):
-                conds.append((norm(p.test), child in p.body or any(child is x for s in p.body for x in ast.walk(s))))
-            child = p
-            p = getattr(p, "_parent", None)
-        none_branch = any(t == f"{var} is None" and inb for t, inb in conds)
-        if none_branch:
+                if any(child is x for x in p.body):
+                    add(p.test, True)
+                elif any(child is x for x in p.orelse):
+                    add(p.test, False)
+            for fld in ("body", "orelse"):
+                blk = getattr(p, fld, None)
+                if isinstance(blk, list) and any(child is x for x in blk):
+                    for sib in blk[: [i for i, x in enumerate(blk) if x is child][0]]:
+                        if isinstance(sib, ast.If) and sib.body and isinstance(sib.body[-1], (ast.Raise, ast.Continue, ast.Return)) and not sib.orelse:
+                            add(sib.test, False)
+            child, p = p, getattr(p, "_parent", None)
+        return out
+
+    n_guarded = 0
+    for c in points:
+        lits = literals(c if isinstance(c, ast.stmt) else getattr(c, "_parent", c))
+        if (f"{var} is None", True) in lits:
             ctx.ob("R3", f"clone_node: {norm(c)} under `{var} is None`", True, nontrivial=False, how="None input")
             continue
-        unmapped = any("not in self._value_map" in t and inb for t, inb in conds)
-        # a rejecting allow_outer_scope_values test precedes the append in the same branch
-        guard = [n for n in ast.walk(loop[0]) if isinstance(n, ast.If) and "not self._allow_outer_scope_values" in norm(n.test)
-                 and any(isinstance(s, ast.Raise) for s in n.body)]
-        ok = unmapped and bool(guard)
-        if ok:
-            gn = [x for x in cfg.node_of(guard[0]) if x.kind == "test"][0]
-            an = cfg.nodes_containing(c)[0]
-            ok = cfg.dominates(gn, an)
+        n_guarded += 1
+        unmapped = (f"{var} in self._value_map", False) in lits
+        allowed = ("self._allow_outer_scope_values", True) in lits
+        # the other way out of the allow_outer_scope_values test rejects
+        rejects = any(isinstance(n, ast.If) and "self._allow_outer_scope_values" in norm(n.test) and (
+            any(isinstance(x, ast.Raise) for x in n.body) or any(isinstance(x, ast.Raise) for x in n.orelse)) for n in ast.walk(loop[0]))
+        ok = unmapped and allowed and rejects
         ctx.check("R3", f"clone_node: pass-through {norm(c)} is guarded by allow_outer_scope_values", ok, cn, c,
                   "an original (outer-scope) value is wired into the clone without the allow_outer_scope_values test: the "
                   "clone silently refers to an object of the source",
-                  how="rejecting `not self._allow_outer_scope_values` test dominates the append")
+                  how="path condition of the pass-through: value unmapped and allow_outer_scope_values true; the other branch raises")
+    ctx.require(n_guarded >= 1, "clone_node: no pass-through of an unmapped input found")
     n = 0
     for f, node, ok, detail, label in s1_sites(repo, {CL}):
         n += 1
